@@ -38,6 +38,21 @@ inline LD worst_leading_cond(const Mat& A, size_t n) {
     for (size_t k = 1; k <= n; ++k) { Mat B(k * k); for (size_t i = 0; i < k; ++i) for (size_t j = 0; j < k; ++j) B[i * k + j] = A[i * n + j]; w = std::max(w, cond_inf(B, k)); }
     return w;
 }
+// growth of elimination WITHOUT row exchanges: || |L||U| ||_inf / ||A||_inf  (>= 1).  The classical backward-error result for LU-based
+// inversion/solution is |dA| <= c n u |L||U| (Higham, Accuracy and Stability, Thm 9.3), so the constant of an n*u*cond(A) residual bound is
+// proportional to this factor; it is close to 1 for the well-conditioned-leading-block inputs the property speaks of.
+inline LD lu_growth(const Mat& A0, size_t n) {
+    Mat U = A0, L(n * n, 0);
+    for (size_t i = 0; i < n; ++i) L[i * n + i] = 1;
+    for (size_t c = 0; c < n; ++c) {
+        if (U[c * n + c] == 0) return 1e300L;
+        for (size_t r = c + 1; r < n; ++r) { LD f = U[r * n + c] / U[c * n + c]; L[r * n + c] = f; for (size_t j = c; j < n; ++j) U[r * n + j] -= f * U[c * n + j]; U[r * n + c] = 0; }
+    }
+    Mat G(n * n, 0);
+    for (size_t i = 0; i < n; ++i) for (size_t k = 0; k < n; ++k) { LD a = fabsl(L[i * n + k]); if (a != 0) for (size_t j = 0; j < n; ++j) G[i * n + j] += a * fabsl(U[k * n + j]); }
+    LD na = norm_inf(A0, n, n); if (na == 0) return 1e300L;
+    return std::max((LD)1, norm_inf(G, n, n) / na);
+}
 // the library's static row pre-pivot (for each column j the row i>=j of largest |A(i,j)| of the ORIGINAL matrix is swapped
 // into position j of the permutation); returns the pre-pivoted matrix. Used only to decide ADMISSIBILITY of an input for the
 // pivoted strategies ("all leading blocks of the row-pre-pivoted A well conditioned"), never to judge a result.
